@@ -64,6 +64,8 @@ type Unit struct {
 	objCtr   int64
 	nsym     int
 	strConst map[string]*Term
+	strConstVal map[*Term]string // reverse of strConst
+	strExt      map[[2]int]bool  // extensionality instances emitted (term id pairs)
 	oblNames map[string]int
 	Fn       *ssa.Function
 	Contract *Contract
@@ -266,6 +268,10 @@ func (u *Unit) strConstTerm(s string) *Term {
 	}
 	t := u.tb.Sym(fmt.Sprintf("str!%d", len(u.strConst)), StrSort)
 	u.strConst[s] = t
+	if u.strConstVal == nil {
+		u.strConstVal = map[*Term]string{}
+	}
+	u.strConstVal[t] = s
 	// axioms (available to every query, never rolled back): length and bytes
 	u.axioms = append(u.axioms, u.tb.Eq(u.slen(t), u.tb.BV(64, int64(len(s)))))
 	for i := 0; i < len(s) && i < 256; i++ {
@@ -280,7 +286,44 @@ func (u *Unit) strConstTerm(s string) *Term {
 	return t
 }
 
-func (u *Unit) slen(s *Term) *Term { return u.tb.UF("slen", BV64, s) }
+func (u *Unit) slen(s *Term) *Term {
+	if c, ok := u.strConstVal[s]; ok {
+		return u.tb.BV(64, int64(len(c)))
+	}
+	return u.tb.UF("slen", BV64, s)
+}
+
+// strEq: equality of two strings. Strings are an uninterpreted sort with length and byte
+// observers; against a constant of at most 64 bytes the extensionality instance is added
+// (equal length and equal bytes imply equality), the other direction is congruence.
+func (u *Unit) strEq(a, b *Term) *Term {
+	tb := u.tb
+	for _, pr := range [][2]*Term{{a, b}, {b, a}} {
+		x, c := pr[0], pr[1]
+		cs, ok := u.strConstVal[c]
+		if !ok || len(cs) > 64 || x == c {
+			continue
+		}
+		if _, both := u.strConstVal[x]; both {
+			continue // two constants: distinct by axiom
+		}
+		if u.strExt == nil {
+			u.strExt = map[[2]int]bool{}
+		}
+		k := [2]int{x.id, c.id}
+		if u.strExt[k] {
+			break
+		}
+		u.strExt[k] = true
+		conj := []*Term{tb.Eq(u.slen(x), tb.BV(64, int64(len(cs))))}
+		for i := 0; i < len(cs); i++ {
+			conj = append(conj, tb.Eq(tb.UF("sbyte", BV8, x, tb.BV(64, int64(i))), tb.BV(8, int64(cs[i]))))
+		}
+		u.axioms = append(u.axioms, tb.Implies(tb.And(conj...), tb.Eq(x, c)))
+		break
+	}
+	return tb.Eq(a, b)
+}
 
 func (f *Frame) constVal(c *ssa.Const) []*Term {
 	tb := f.tb()
